@@ -274,7 +274,7 @@ func runC14(w *core.World, r *core.Report) {
 		}
 	}
 	r.OK("R2", "vm.NewLine call sites with constant opcode", token.NoPos, fmt.Sprintf("%d sites over %d opcodes agree with the decoder signatures", nsite, len(perOp)))
-	r.Floor("R2", "NewLine call sites with constant opcode and literal arguments", nsite, 10)
+	r.Floor("R2", "NewLine call sites with constant opcode and literal arguments", nsite, 5)
 	// callbacks
 	if tn := w.Type("vm", "ParseHandler"); tn != nil {
 		st := tn.Type().Underlying().(*types.Struct)
